@@ -33,6 +33,7 @@ func runC11(c *Ctx, r *Report) {
 	c03Dial(c, r, "C11.R15", false) // every failed dial is remembered on the peer that failed: plain and TLS upstreams, dial and header-write failures (evaluation of dialPeers over all outcomes)
 	c11PeersFrozen(c, r, "C11.R16")
 	c11AdmissionBeforeDial(c, r, "C11.R17")
+	c11ActiveCheckerStarts(c, r, "C11.R18")
 	c15R6(c, r, "C11.R14") // the health checks in effect are the configured ones: a Caddyfile option never replaces a health-check object an earlier option has filled in
 	// an upstream at its connection limit is not given another connection: every policy returns only upstreams
 	// for which available() (health AND limits) holds - the policy tables of C10 with full pool states
@@ -496,6 +497,10 @@ func c11R6(c *Ctx, r *Report, rule string) {
 						r.bad(rule, fname(fn), "plain store peer."+f, c.ipos(x), "the counter is overwritten with a plain store")
 					case ssa.CallInstruction:
 						id := calleeID(x)
+						if ops := atomicOpsAt(c, x, fa); len(ops) > 0 && !strings.HasPrefix(id, "sync/atomic.") {
+							// a helper of the package that performs nothing but these atomic operations on the counter
+							id = strings.Join(ops, "+")
+						}
 						if strings.HasPrefix(id, "sync/atomic.Load") {
 							continue
 						}
